@@ -107,6 +107,18 @@ def scalar_part(emit, tier, shard, nshards):
         ps = all_periods(ind, 1900, 2100) if ind != "D" else [(y, k) for y in dyears for k in range(1, days_in(y) + 1)]
         jobs.append((f"tp:{ind}", "getyear", "DS_r <- DS_1[calc Me_2 := getyear(Me_1)];", [(ind,) + p for p in ps], lambda p: p[1]))
         jobs.append((f"tp:{ind}", "period_indicator", "DS_r <- DS_1[calc Me_2 := period_indicator(Me_1)];", [(ind,) + p for p in ps], lambda p: p[0]))
+        if ind in "ASQMD":
+            # day functions on a period refer to the period's last day (convention observed on the pinned tree); the calendar
+            # (month lengths, leap years incl. the century rule) then fixes every value
+            def end_date(p):
+                import calendar
+                i, y, k = p
+                if i == "D":
+                    return datetime.date(y, 1, 1) + datetime.timedelta(days=k - 1)
+                m = {"A": 12, "S": 6 * k, "Q": 3 * k, "M": k}[i]
+                return datetime.date(y, m, calendar.monthrange(y, m)[1])
+            jobs.append((f"tp:{ind}", "dayofyear", "DS_r <- DS_1[calc Me_2 := dayofyear(Me_1)];", [(ind,) + p for p in ps], lambda p: end_date(p).timetuple().tm_yday))
+            jobs.append((f"tp:{ind}", "dayofmonth", "DS_r <- DS_1[calc Me_2 := dayofmonth(Me_1)];", [(ind,) + p for p in ps], lambda p: end_date(p).day))
         if ind == "D":
             # a day belongs to the ISO week (and ISO year) of its date
             jobs.append((f"tp:{ind}", "time_agg:W", 'DS_r <- DS_1[calc Me_2 := time_agg("W", Me_1)];', [(ind,) + p for p in ps],
@@ -196,6 +208,54 @@ def shift_part(emit, tier, shard, nshards, rng):
             emit({"v": "held", "b": b2})
 
 
+def date_shift_part(emit, tier, shard, nshards):
+    """timeshift on Date identifiers (the frequency is inferred from the series): shifting by n and back is the identity and
+    distinct dates stay distinct; month-end series (incl. end of February across leap years) are the delicate ones"""
+    import calendar
+    from vf import eng
+
+    def month_ends(y0, y1, step):
+        out = []
+        for y in range(y0, y1 + 1):
+            for m in range(1, 13, step):
+                mm = m + step - 1
+                out.append(datetime.date(y, mm, calendar.monthrange(y, mm)[1]))
+        return out
+    series = {
+        "annual-end-of-february": [datetime.date(y, 2, calendar.monthrange(y, 2)[1]) for y in range(2015, 2026)],
+        "annual-31-december": [datetime.date(y, 12, 31) for y in range(2015, 2026)],
+        "annual-15-june": [datetime.date(y, 6, 15) for y in range(2015, 2026)],
+        "monthly-month-end": month_ends(2019, 2021, 1), "quarterly-quarter-end": month_ends(2019, 2022, 3), "semester-end": month_ends(2018, 2023, 6),
+        "monthly-15th": [datetime.date(y, m, 15) for y in (2019, 2020, 2021) for m in range(1, 13)],
+        "daily-around-leap-day": [datetime.date(2020, 2, 20) + datetime.timedelta(days=k) for k in range(20)],
+    }
+    comps = [("Id_1", "Date", "Identifier", False), ("Me_1", "Integer", "Measure", True)]
+    st = eng.structures(eng.mkds("DS_1", comps))
+    jobs = [(name, n) for name in series for n in ([1, 2, 3, -1, 5] if tier == "quick" else [1, 2, 3, 4, 5, 7, 12, -1, -2, -3, -5, -13])]
+    for i, (name, n) in enumerate(jobs):
+        if i % nshards != shard:
+            continue
+        ds = series[name]
+        rows = [(d.isoformat(), j) for j, d in enumerate(ds)]
+        b = f"timeshift-date/{name}/{'+' if n > 0 else '-'}"
+        case = {"part": "timeshift-date", "series": name, "n": n}
+        script = f"DS_r <- timeshift(timeshift(DS_1, {n}), {-n});"
+        s, r = eng.call(eng.run, script, st, {"DS_1": eng.mkdf(["Id_1", "Me_1"], rows)})
+        s1, r1 = eng.call(eng.run, f"DS_r <- timeshift(DS_1, {n});", st, {"DS_1": eng.mkdf(["Id_1", "Me_1"], rows)})
+        if s == "exc" or s1 == "exc":
+            e = r if s == "exc" else r1
+            emit({"v": "skip", "why": f"timeshift on a Date series rejected: {type(e).__name__}"})
+            continue
+        got = dict(zip(r["DS_r"].data["Me_1"].tolist(), [str(x)[:10] for x in r["DS_r"].data["Id_1"].tolist()]))
+        bad = [(rows[j][0], got.get(j)) for j in range(len(ds)) if got.get(j) != rows[j][0]]
+        dup = len(set(map(str, r1["DS_r"].data["Id_1"].tolist()))) != len(ds)
+        if bad or dup:
+            emit({"v": "viol", "b": b, "mech": f"timeshift-date/{'collapses-distinct-dates' if dup else 'roundtrip-not-identity'}/{name}",
+                  "what": f"{script} on the {name} series: " + (f"{len(bad)} of {len(ds)} dates do not come back, e.g. {bad[0][0]} -> {bad[0][1]}" if bad else "two dates are shifted onto the same date"), "case": case})
+        else:
+            emit({"v": "held", "b": b, "sample": {"script": script, "series": name, "dates": len(ds)}})
+
+
 def series_part(emit, tier, shard, nshards, rng):
     from vf import eng
     comps = [("Id_1", "String", "Identifier", False), ("Id_t", "Time_Period", "Identifier", False), ("Me_1", "Number", "Measure", True)]
@@ -270,6 +330,7 @@ def run_shard(spec, emit):
     rng = random.Random(f"C08-{spec['seed']}")
     scalar_part(emit, spec["tier"], spec["shard"], spec["nshards"])
     shift_part(emit, spec["tier"], spec["shard"], spec["nshards"], rng)
+    date_shift_part(emit, spec["tier"], spec["shard"], spec["nshards"])
     series_part(emit, spec["tier"], spec["shard"], spec["nshards"], rng)
 
 
